@@ -22,13 +22,14 @@ def cond_case(D, R, b_idx, a_idx=None, semi=(), timeout=400):
     cid = f"C06/{'condition_on_explicit' if explicit else 'condition_on'}/D{D}R{R}/b{''.join(map(str, b_idx))}" + (f"a{''.join(map(str, a))}" if explicit else "") + ("/semi-" + "-".join(semi) if semi else "")
     cfg = dict(op="condition_on_explicit" if explicit else "condition_on", D=D, R=R, b=list(b_idx), a=a, concrete_blocks=list(semi))
     Da, Db = len(a), len(b_idx)
+    NP = 2      # evaluation points: cond(x_b) returns R*NP components laid out r*NP+n
 
     def declare(bl):
         if "S" in semi:
             bl.const("S", bl.rat_spd(R, D))
         else:
             bl.spd("S", R, D)
-        bl.free("mu", (R, D)); bl.free("x", (1, D))
+        bl.free("mu", (R, D)); bl.free("x", (NP, D))
 
     def fn(**A):
         import jax.numpy as jnp
@@ -39,21 +40,26 @@ def cond_case(D, R, b_idx, a_idx=None, semi=(), timeout=400):
         x = A["x"]
         xa, xb = x[:, ai], x[:, bi]
         pm = p.get_marginal(bi)
-        return {"cond": c.condition_on_x(xb).evaluate_ln(xa), "marg": pm.evaluate_ln(xb), "joint": p.evaluate_ln(x),
+        cx = c.condition_on_x(xb)
+        return {"cond": jnp.stack([cx.evaluate_ln(xa[n:n + 1])[:, 0] for n in range(NP)], axis=1), "marg": pm.evaluate_ln(xb), "joint": p.evaluate_ln(x),
+                "cond_fields": fields(cx),
                 "c": {"M": c.M, "b": c.b, "Sigma": c.Sigma, "Lambda": c.Lambda, "ln_det_Sigma": c.ln_det_Sigma}}
 
     def claims(I, O, ops):
         S, mu, x = I["S"], I["mu"], I["x"]
         cl = []
-        lhs = ops.zeros((R,)); rhs = ops.zeros((R,))
+        lhs = ops.zeros((R, NP)); rhs = ops.zeros((R, NP))
         eM = ops.zeros((R, Da, Db)); eb = ops.zeros((R, Da)); eS = ops.zeros((R, Da, Da))
         for r in range(R):
-            lhs[r] = O["cond"][r, 0] + O["marg"][r, 0]
-            rhs[r] = spec.logN(ops, x[0], mu[r], S[r])
+            for n in range(NP):
+                # component r*NP+n of cond(x_b) is p(. | x_b = x_b[n]) of density r
+                lhs[r, n] = O["cond"][r * NP + n, n] + O["marg"][r, n]
+                rhs[r, n] = spec.logN(ops, x[n], mu[r], S[r])
             M_, b_, Sc = spec.schur_conditional(ops, mu[r], S[r], a, list(b_idx))
             eM[r], eb[r], eS[r] = M_, b_, Sc
         cl.append(("p(x_a|x_b) p(x_b) = p(x)  (library conditional x library marginal vs N(x; mu, Sigma))", lhs, rhs))
-        cl.append(("joint.evaluate_ln = N(x; mu, Sigma)", O["joint"][:, 0], rhs))
+        cl.append(("joint.evaluate_ln = N(x; mu, Sigma)", O["joint"], rhs))
+        cl += invariant_claims(ops, O["cond_fields"], "cond(x_b) [R*N components]")
         cl.append(("conditional M = Sigma_ab Sigma_bb^-1 (rows ordered as a)", O["c"]["M"], eM))
         cl.append(("conditional b = mu_a - M mu_b", O["c"]["b"], eb))
         cl.append(("conditional Sigma = Schur complement of the covariance", O["c"]["Sigma"], eS))
